@@ -23,7 +23,7 @@ REPLIES = ['-2-0', '1,-1-1', '-1-0', '0--1', '0', '1', '2', '0,1', '1,0', '0-1',
 
 
 RULE += ' Since round 8 a quarter of the runs carry --overwrite (the listing is judged alike).'
-RULE += ' Since round 19 a family with entries spread over the home trash and both volume trash directories of one or two volumes.'
+RULE += ' Since round 10 a family with entries spread over the home trash and both volume trash directories of one or two volumes.'
 
 
 def gen(rng, n):
